@@ -67,6 +67,10 @@ func (o *Outcome) Views() []*View {
 					if n, err := strconv.Atoi(echo[:i]); err == nil {
 						if u := o.upBySerial(n); u != nil {
 							v.Kind = "origin"
+							if u.Reply.Fault == "badenc" && r.Res.Status >= 500 {
+								// pike's own error page built on top of the (undecodable) reply's headers
+								v.Kind = "error"
+							}
 							v.Serial = n
 							v.EchoKey = echo[i+1:]
 							v.Up = u
@@ -132,7 +136,7 @@ func possibleMarker(o *Outcome, key string, before *UpRec, fromT int64, hfp int)
 		if u0.ArriveSeq >= before.ArriveSeq {
 			continue
 		}
-		if u0.Shareable && !u0.Verdict.Ambiguous {
+		if u0.Shareable && !u0.Verdict.Ambiguous && u0.Answered && fetcherStored(o, u0) {
 			// a cacheable outcome of a fetcher leaves no marker; but if its requester
 			// was itself a passer nothing changes either. no marker from this one.
 			continue
@@ -145,6 +149,16 @@ func possibleMarker(o *Outcome, key string, before *UpRec, fromT int64, hfp int)
 			latestSet = c0.ReturnT
 		}
 		if secFloor(fromT) <= secFloor(latestSet)+int64(hfp) {
+			return true
+		}
+	}
+	for _, r := range o.Hist.Reqs {
+		if r.Key != key || len(r.Ups) > 0 || r.InvokeSeq >= before.ArriveSeq {
+			continue
+		}
+		// a request that took the fetching role and failed before reaching the origin
+		// (no location / no healthy upstream) leaves a marker as well
+		if r.Res == nil || r.Res.Aborted || (r.Res.Status >= 500 && r.Res.Header.Get("X-Sim-Echo") == "") {
 			return true
 		}
 	}
